@@ -153,6 +153,10 @@ def call(an, st, fid, fn, t, callee, resolved, args, record):
         if name in ("saturating_sub",):
             rr = sub(a, b)
             return IntV(max(0, rr.nlo), max(0, rr.nhi), bits, signed), st
+        if name == "abs_diff":
+            rr = sub(a, b)
+            lo = 0 if (rr.nlo <= 0 <= rr.nhi) else min(abs(rr.nlo), abs(rr.nhi))
+            return IntV(lo, max(abs(rr.nlo), abs(rr.nhi)), bits, False), st
         if name in ("trailing_zeros", "leading_zeros", "count_ones"):
             return IntV(0, bits, 32, False), st
         if name in ("pow",):
